@@ -102,13 +102,9 @@ impl WriteTomlValue for f32 {
             (false, true, _) => write!(writer, "nan"),
             (true, false, true) => write!(writer, "-0.0"),
             (false, false, true) => write!(writer, "0.0"),
-            (_, false, false) => {
-                if self % 1.0 == 0.0 {
-                    write!(writer, "{self}.0")
-                } else {
-                    write!(writer, "{self}")
-                }
-            }
+            // TOML floats are 64-bit: write the exact value so that reading it back and
+            // narrowing cannot round twice
+            (_, false, false) => f64::from(*self).write_toml_value(writer),
         }
     }
 }
